@@ -32,7 +32,7 @@ Definition value_of_mval (m : mval) : value :=
 
 Inductive tie_res : Type :=
 | TieOk (bytes : list Z)      (* what the emitted code prints *)
-| TiePoison | TieReject | TieCrash | TieNone.
+| TieErr | TiePoison | TieReject | TieCrash | TieNone.
 
 Definition tie_of (r : lres) : tie_res :=
   match r with
@@ -40,6 +40,7 @@ Definition tie_of (r : lres) : tie_res :=
              | inl (Some bs) => TieOk bs
              | _ => TieNone
              end
+  | LRtErr => TieErr
   | LPoison => TiePoison
   | LReject => TieReject
   | LCrash => TieCrash
